@@ -491,6 +491,13 @@ func c04Decoded(r *Run) {
 	kind := kinds[t.Choose(3, "c04.dec.kind")]
 	spec := &MsgSpec{Kind: kind, Payload: genPayload(t, false), External: genExternal(t)}
 	gov := genLayer(t, LayerOpts{MaxExtra: 3, AlgItem: algItem})
+	if algKind == "absent" && t.Bool(1, 2, "c04.dec.unprot-alg") && gov.Unprot.lookup(refcose.LAlg) == nil {
+		// the signed bytes name no algorithm, the UNPROTECTED bucket does (the
+		// key's own, as a hint): unsigned bytes govern nothing, so without
+		// external data verification still fails and the key is not invoked
+		gov.Unprot = append(gov.Unprot, KV{refcbor.Uint(refcose.LAlg), refcbor.Int(key.Alg)})
+		r.Fired("alg.only-in-unprotected")
+	}
 	if kind == refcose.KSignTagged {
 		spec.Layer = genLayer(t, LayerOpts{MaxExtra: 2})
 		if t.Bool(1, 3, "c04.dec.bodyalg") {
